@@ -25,6 +25,8 @@ def run(lane, nlanes):
         log = V + "/.work/final_%s.log" % sid
         if os.path.exists(log) and "MUT " in open(log).read():
             continue
+        if os.environ.get("FINAL_PRIMARY_ONLY"):
+            props = props[:1]
         with open(log, "w") as f:
             subprocess.run([V + "/tools/mutrun.py", "F" + sid, d + "/patch.diff"] + props, stdout=f, stderr=subprocess.STDOUT, cwd=V)
 
